@@ -508,7 +508,7 @@ theorem PoolInv.release {p cs ch ls lh} (h : PoolInv p cs ch ls lh) (hr : p.rele
       intro i hi
       rw [h.slot hr i (by omega)]
       simp)
-  refine ⟨⟨h.shape.npos, h.shape.pow, ?_, h.shape.elen, h.shape.ht, h.shape.nofault, ?_, ?_⟩, ?_, ?_, ?_, ?_⟩
+  refine ⟨⟨h.shape.npos, h.shape.pow, ?_, h.shape.elen, h.shape.ht, h.shape.nofault, ?_, ?_, h.shape.tailres⟩, ?_, ?_, ?_, ?_⟩
   · intro h'; cases h'
   · intro _; rfl
   · intro h'; cases h'
